@@ -134,6 +134,20 @@ def conditional(with_x):
     for c1, c2 in itertools.permutations(m[:4], 2):
         for s1, s2, s3 in itertools.permutations(ex[2:6], 3):
             out.append(('if', c1, [s1], ('if', c2, [s2], [s3])))
+    # chains with two and three else_if arms (each arm pins q to a different value, so a lost
+    # middle arm is visible), with and without a final else
+    arms = [('bin', '==', P_, ('lit', 0)), ('bin', '==', P_, ('lit', 1)), ('bin', '==', P_, ('lit', 2)), ('bin', '>', P_, ('lit', 2))]
+    pins = [('expr', ('bin', '==', Q_, ('lit', 1))), ('expr', ('bin', '==', Q_, ('lit', 0))), ('expr', ('bin', '==', Q_, ('lit', 2))),
+            ('expr', ('bin', '==', Q_, ('lit', 3)))]
+    for n in (3, 4):
+        for order in itertools.permutations(range(4), n):
+            if n == 4 and order[0] > order[1]:
+                continue
+            for last_else in (None, [('expr', ('bin', '!=', Q_, ('lit', 1)))]):
+                chain = last_else
+                for k in reversed(order):
+                    chain = ('if', arms[k], [pins[k]], chain)
+                out.append(chain)
     for c1, c2 in itertools.permutations(m[:3], 2):
         out.append(('if', c1, [ex[4]], ('if', c2, [ex[5]], None)))
         out.append(('implies', c1, [('if', c2, [ex[4]], [ex[5]])]))
